@@ -7,6 +7,7 @@ import (
 	"runtime/debug"
 	"sort"
 
+	be "github.com/echoface/be_indexer"
 	"github.com/echoface/be_indexer/roaringidx"
 )
 
@@ -25,7 +26,8 @@ type rCase struct {
 	Fields []rField `json:"fields"`
 	Docs   []eDoc   `json:"docs"`
 	Ops    []rOp    `json:"ops"`
-	Bulk   int      `json:"bulk,omitempty"` // that many documents 0, 1, 2, ... `field 0 in [1]` added first (SpecRr.bulk_docs)
+	Batch  int      `json:"batch,omitempty"` // > 1: documents go to AddDocuments in groups of up to Batch; the generator puts a refused document last in its group
+	Bulk   int      `json:"bulk,omitempty"`  // that many documents 0, 1, 2, ... `field 0 in [1]` added first (SpecRr.bulk_docs)
 }
 
 func bulkDoc(i int) eDoc {
@@ -52,7 +54,29 @@ func buildRoaring(c *rCase) (*roaringidx.IvtBEIndexer, []string, int) {
 		}
 		nok++
 	}
-	for i := range c.Docs {
+	for i := 0; i < len(c.Docs); {
+		if c.Batch > 1 { // AddDocuments stops at the first document it refuses: by construction that is the group's last
+			var group []*be.Document
+			j := i
+			for ; j < len(c.Docs) && len(group) < c.Batch; j++ {
+				group = append(group, c.Docs[j].build())
+			}
+			var err error
+			p := safeCall(func() { err = b.AddDocuments(group...) })
+			for k := i; k < j; k++ {
+				switch {
+				case k == j-1 && p:
+					adds = append(adds, "IAddPanic")
+				case k == j-1 && err != nil:
+					adds = append(adds, "IAddErr")
+				default:
+					adds = append(adds, "IAddOk")
+					nok++
+				}
+			}
+			i = j
+			continue
+		}
 		var err error
 		p := safeCall(func() { err = b.AddDocument(c.Docs[i].build()) })
 		switch {
@@ -64,6 +88,7 @@ func buildRoaring(c *rCase) (*roaringidx.IvtBEIndexer, []string, int) {
 			adds = append(adds, "IAddOk")
 			nok++
 		}
+		i++
 	}
 	idx, err := b.BuildIndexer()
 	if err != nil {
